@@ -222,7 +222,14 @@ def install_env(ctx, eng, faults=True, fail_only=None):
                 tied.add(pn)
                 st.pc += fs_axioms(pn)
             a = fs_fact(name, pn)
-            return Outcome(BoolV(a), events=[Event("Path::" + name, [p], BoolV(a))])
+            outs = [Outcome(BoolV(a), events=[Event("Path::" + name, [p], BoolV(a))])]
+            # std's exists()/is_dir()/is_file() answer `false` when the stat itself fails: one such failure per path is explored,
+            # so that a decision resting on it ("nothing there": overwrite, skip the backup, skip the identity check) shows up
+            if env.may_fail("Path::" + name) and not st.ghost.get("stat_swallowed"):
+                def eff(eng, s2, a2):
+                    s2.ghost["stat_swallowed"] = True
+                outs.append(Outcome(BoolV(False), events=[Event("Path::" + name, [p], "stat-failed")], effect=eff))
+            return outs
         return h
     for nm in ("exists", "is_dir", "is_file", "is_symlink"):
         S(r"^(std::path::)?Path::%s$" % nm, s_exists(nm))
